@@ -1003,18 +1003,20 @@ static void string_initializer(Token **rest, Token *tok, Initializer *init) {
 //
 // The above initializer sets x.c to 5.
 static void array_designator(Token **rest, Token *tok, Type *ty, int *begin, int *end) {
-  *begin = const_expr(&tok, tok->next);
-  if (*begin < 0)
+  int64_t val = const_expr(&tok, tok->next);
+  if (val < 0)
     error_tok(tok, "array designator index is negative");
-  if (*begin >= ty->array_len)
+  if (val >= ty->array_len)
     error_tok(tok, "array designator index exceeds array bounds");
+  *begin = val;
 
   if (equal(tok, "...")) {
-    *end = const_expr(&tok, tok->next);
-    if (*end >= ty->array_len)
+    val = const_expr(&tok, tok->next);
+    if (val >= ty->array_len)
       error_tok(tok, "array designator index exceeds array bounds");
-    if (*end < *begin)
-      error_tok(tok, "array designator range [%d, %d] is empty", *begin, *end);
+    if (val < *begin)
+      error_tok(tok, "array designator range [%d, %ld] is empty", *begin, val);
+    *end = val;
   } else {
     *end = *begin;
   }
@@ -1107,9 +1109,15 @@ static int count_array_init_elements(Token *tok, Type *ty) {
     first = false;
 
     if (equal(tok, "[")) {
-      i = const_expr(&tok, tok->next);
+      Token *start = tok;
+      int64_t val = const_expr(&tok, tok->next);
       if (equal(tok, "..."))
-        i = const_expr(&tok, tok->next);
+        val = const_expr(&tok, tok->next);
+      if (val < 0)
+        error_tok(start, "array designator index is negative");
+      if (val >= INT32_MAX)
+        error_tok(start, "array is too large");
+      i = val;
       tok = skip(tok, "]");
       designation(&tok, tok, dummy);
     } else {
